@@ -258,7 +258,7 @@ def rule_r1(prog, res):
             decs = [x for x in calls_in(f.node) if (
                 call_name(x) in DECODERS or call_name(x) in WRAPPERS)
                     and x.lineno > c.lineno]
-            ok = bool(decs)
+            ok = ok or bool(decs)
     res.ob('R1', f.where, '_from_dict_value: validate_string (soft) precedes '
            'the leaf decoders', 'ok' if ok else 'VIOLATED')
     if not ok:
